@@ -256,6 +256,7 @@ HARNESSES = [
 ]
 
 from harness.c05 import h05_rabbit, h05_redis  # noqa: E402
+from harness.c02 import h02_rabbit_retry  # noqa: E402
 
 HARNESSES += [
     Harness(
@@ -265,6 +266,14 @@ HARNESSES += [
         covers=["delivered", "held-back"],
         stubs=["fake Redis server (fakes/redis.py)"],
     ),
+    Harness(
+        name="H04-redis-reject-keeps-backoff", scenario=h05_redis, workers=4, params={"quick": {"via": "reject"}, "thorough": {"via": "reject"}},
+        bounds={"a retry waiting out its back-off is taken through the delayed category and given back (reject)": "due time, instants any µs in 2000..2050"},
+        functions=["connections/redis/message_broker.py:RedisMessageBroker.reject"], covers=["delivered", "held-back"], stubs=["fake Redis server"]),
+    Harness(
+        name="H04-rabbit-zero-backoff-chain", scenario=h02_rabbit_retry, workers=4,
+        bounds={"RabbitMQ": "retries=1, zero back-off, confirm before/after redelivery, retry fails or succeeds"},
+        covers=["rabbit-retry"], stubs=["fake AMQP server"]),
     Harness(
         name="H04-rabbit-backoff", scenario=h05_rabbit, params={"quick": {"via": "requeue"}, "thorough": {"via": "requeue"}},
         bounds={"retry due time, publish instant": "any microsecond in 2000..2100 (back-offs up to 100 years)"},
